@@ -15,7 +15,7 @@ using namespace wc;
 #define CFG_U8(k) vk_sym_u8()
 #define CFG_U16(k) vk_sym_u16()
 #define CFG_U32(k) vk_sym_u32()
-#define CFG_PROFILE() vk_choose(3)
+#define CFG_PROFILE() vk_choose(4)
 #else
 #define CFG_U8(k) ((uint8_t)(k))
 #define CFG_U16(k) ((uint16_t)(k))
@@ -33,13 +33,13 @@ struct X {
   uint8_t first[96]; uint32_t first_len = 0; // the CONNECT of the first connection
 
   void configure() {
-    // three profiles instead of 2^6 presence combinations: nothing optional / everything / credentials + Session Expiry only
+    // four profiles instead of 2^6 presence combinations: nothing optional / everything / user name + Session Expiry / password without user name
     int profile = CFG_PROFILE();
-    c.id1 = CFG_U8('i'); c.has_user = profile >= 1; c.has_pass = profile == 1; c.u1 = CFG_U8('u'); c.p1 = CFG_U8('p');
+    c.id1 = CFG_U8('i'); c.has_user = profile == 1 || profile == 2; c.has_pass = profile == 1 || profile == 3; c.u1 = CFG_U8('u'); c.p1 = CFG_U8('p');
     c.has_will = profile == 1; c.wt1 = CFG_U8('x'); vk_assume(c.wt1 >= 'a' && c.wt1 <= 'z'); c.wp1 = CFG_U8('y'); c.wqos = CFG_U8(1); vk_assume(c.wqos <= 2); c.wretain = CFG_U8(1) & 1;
     c.has_wdelay = profile == 1; c.wdelay = CFG_U32(7);
     c.ka = CFG_U16(900); vk_assume(c.ka >= 600);      // keep-alive timers stay out of the way of the handshake timers here (keep-alive is C12)
-    c.has_sei = profile >= 1; c.sei = CFG_U32(0x01020304); c.has_rm = profile == 1; c.rm = CFG_U16(0x0102);
+    c.has_sei = profile == 1 || profile == 2; c.sei = CFG_U32(0x01020304); c.has_rm = profile == 1; c.rm = CFG_U16(0x0102);
     std::string id = "c"; id.push_back((char)c.id1);
     w.c.credentials(id, c.has_user ? std::string(1, (char)c.u1) : std::string(), c.has_pass ? std::string(1, (char)c.p1) : std::string());
     if (c.has_will) {
@@ -154,6 +154,21 @@ extern "C" void h_connect(void) {
     vk_assert(w.npk == b + 1 && w.pk[b].type == ref::PUBLISH, "unexpected packet after CONNACK");
     vk_assert(w.ops[q].done == 1 && w.ops[q].ec == 0, "queued PUBLISH did not complete after the connection came up");
     vk_reach("connected");
+    // the connection is lost later: the next attempt continues with the next broker of the list (pause only at wrap-around)
+    // and starts with the same CONNECT again
+    if (x->nres >= 1 && vk_choose(2)) {
+      int last_host = x->resolve_hosts[x->nres - 1]; int before_res = x->nres; int pauses_before = x->pauses;
+      w.drop_connection(); vk::drain();
+      bool again = tcp_and_connect(x, 0); vk_assert(again, "no new attempt after the connection was lost");
+      vk_assert(x->nres == before_res + 1 && x->resolve_hosts[x->nres - 1] == (last_host + 1) % nhosts, "after a lost connection the next broker of the list is not the one tried");
+      vk_assert((x->pauses > pauses_before) == (last_host + 1 >= nhosts), "pause after a lost connection is not tied to the wrap-around of the broker list");
+      vk::sock_rec* s2 = vk::pending_connect(); vk::complete_connect(s2, {}); w.new_connection(); vk::drain();
+      vk::sock_rec* wr2 = vk::pending_write(); vk_assert(wr2 != nullptr, "no CONNECT on the connection after a loss");
+      int b2 = w.npk; w.finish_write(wr2, wr2->wdata.size(), {}); vk::drain();
+      vk_assert(w.npk == b2 + 1 && w.pk[b2].type == ref::CONNECT && w.pk[b2].len == x->first_len, "the connection after a loss does not start with the same CONNECT");
+      for (uint32_t i = 0; i < x->first_len; i++) vk_assert(w.rx[w.pk[b2].off + i] == x->first[i], "the connection after a loss does not start with the same CONNECT");
+      vk_reach("reconnect-after-success");
+    }
   }
 }
 
